@@ -331,6 +331,10 @@ func (fc *FuncContract) addClause(word, rest string, ln int) error {
 				if l == "@rset" {
 					fc.Assigns = append(fc.Assigns, rsetGroup...)
 				}
+				if l == "@declared" {
+					// the two ghosts of a chunk header (declared length, tag) go together
+					fc.Assigns = append(fc.Assigns, "@chunktag")
+				}
 			}
 		}
 	case "config":
@@ -472,6 +476,9 @@ func (fc *FuncContract) addClause(word, rest string, ln int) error {
 					lc.Assigns = append(lc.Assigns, l)
 					if l == "@rset" {
 						lc.Assigns = append(lc.Assigns, rsetGroup...)
+					}
+					if l == "@declared" {
+						lc.Assigns = append(lc.Assigns, "@chunktag")
 					}
 				}
 			}
